@@ -12,7 +12,16 @@ Decided clause:
        output buffer finally holds keys[o .. o+32) for one constant offset o (last store per index wins
        when the two pointers were aliased); and the offsets are crossed: client rx = server tx and
        client tx = server rx, in every mode against every mode.
-NOT decided: RFC 7748 values, clamping arithmetic, the BLAKE2b values, seeded key-pair values.
+  R5.3 in-place calls: in every X25519 ladder entry (ref10, sandy2x) all reads of the scalar n and the
+       point p - direct or through callees - precede the first write through the output q on every
+       path, so q == p or q == n (the peer key replaced by the shared secret) computes the same
+       function as distinct buffers.
+  R5.4 (E11 bit-flow on the -O2 IR, helpers in other units resolved) clamping and the ignored top bit:
+       in every ladder entry the scalar bits 0, 1, 2 and 254, 255 cannot influence anything (they are
+       cleared / forced in the local copy before any use) while each of the other 251 scalar bits
+       can; bit 255 of the point cannot influence anything (masked by the decoder and by the
+       low-order blocklist comparison) while each of the other 255 point bits can.
+NOT decided: RFC 7748 values, the ladder arithmetic, the BLAKE2b values, seeded key-pair values.
 """
 from .. import deps
 from .. import e9
@@ -66,6 +75,8 @@ def run(ctx, chk):
                    key="R5.1 constant-success")
 
     kx_rule(prog, chk)
+    inplace_rule(prog, chk)
+    clamp_rule(ctx, prog, chk)
 
 
 KX = {"crypto_kx_client_session_keys": {"own_sk": 3, "peer_pk": 4, "client_pk": 2, "server_pk": 4},
@@ -89,7 +100,9 @@ def kx_rule(prog, chk):
             zrx, ztx = p.facts.zeroness(RX) or "NZ", p.facts.zeroness(TX) or "NZ"
             mode = ("rx" if zrx == "NZ" else "") + ("+" if zrx == ztx == "NZ" else "") + ("tx" if ztx == "NZ" else "")
             sm = [e for e in p.calls("crypto_scalarmult")]
-            wr = [e for e in p.events if e.kind == "store" and T.root(e.addr) in (RX, TX)]
+            wr = [e for e in p.events if (e.kind == "store" and T.root(e.addr) in (RX, TX)) or
+                  (e.kind == "call" and (e.callee_name() or "").startswith(("llvm.memcpy", "llvm.memmove", "memcpy", "memmove"))
+                   and T.root(e.args[0]) in (RX, TX))]
             if p.may_return_nonzero():
                 ok = not wr and (not sm or p.facts.zeroness(sm[0].res) != "Z")
                 chk.ob("R5.2", fn, "failing exit: the X25519 status was non-zero and no session key was written", ok,
@@ -132,6 +145,15 @@ def kx_rule(prog, chk):
             for e in wr:
                 if e.idx < seq[4].idx:
                     okf = False
+                    continue
+                if e.kind == "call":
+                    # block copy: buf <- keys + o, exactly one key long
+                    dst, src, ln = e.args[0], e.args[1], e.args[2]
+                    sco, sk = T.linear(src)
+                    if dst in (RX, TX) and T.root(src) == keys and set(sco) == {keys} and ln == C(nkey, 64):
+                        final[dst] = sk
+                    else:
+                        okf = False
                     continue
                 base = T.root(e.addr)
                 co, k = T.linear(e.addr)
@@ -194,3 +216,86 @@ def _strip(t):
     while t[0] == "cast":
         t = t[2]
     return t
+
+
+def inplace_rule(prog, chk):
+    """R5.3: inputs are consumed before the output is touched"""
+    cg = prog.callgraph()
+    rr = cg.ranges()
+    n = 0
+    for name in ("crypto_scalarmult_curve25519_ref10", "crypto_scalarmult_curve25519_sandy2x"):
+        fn = prog.fn(name)
+        if fn is None:
+            continue            # backend not compiled in this configuration
+        Q, ins = ("arg", 0), (("arg", 1), ("arg", 2))
+        for p in cm.paths(prog, fn):
+            if p.kind != "ret":
+                continue
+            first_w = None
+            last_r = None
+            for e in p.events:
+                if e.kind in ("store", "call") and first_w is None and cm.writes_through(prog, p, e, Q):
+                    first_w = e
+                reads = False
+                if e.kind == "load" and T.root(e.addr) in ins:
+                    reads = True
+                elif e.kind == "call":
+                    for k, a in enumerate(e.args):
+                        if T.root(a) in ins:
+                            if e.callee[0] == "fn":
+                                reads = reads or bool(rr.reads(e.callee[1], k))
+                            else:
+                                reads = True
+                if reads:
+                    last_r = e
+            if first_w is None or last_r is None:
+                continue
+            n += 1
+            ok = last_r.idx <= first_w.idx
+            chk.ob("R5.3", fn, "every read of the scalar and the point precedes the first write through q", ok,
+                   loc=fn.loc(first_w.iid), detail="" if ok else "q is written at %s, an input is still read at %s"
+                   % (fn.loc(first_w.iid), fn.loc(last_r.iid)), path=None if ok else p, key="R5.3 %s" % name)
+    chk.floor("R5.3", "returning paths of the X25519 ladder entries that write q", n, 1)
+
+
+def clamp_rule(ctx, prog, chk):
+    """R5.4: which bits of scalar and point the ladder entries can be influenced by"""
+    from .. import bitflow
+    units = {}
+
+    def bf_of(unit):
+        if unit not in units:
+            units[unit] = bitflow.BitFlow(e9.O2Unit(ctx, unit), resolver)
+        return units[unit]
+
+    def resolver(irname):
+        for f in prog.functions():
+            if f.name == irname and not f.decl:
+                return bf_of(f.unit)
+        return None
+
+    CLAMPED = {(0, 0), (0, 1), (0, 2), (31, 6), (31, 7)}
+    n = 0
+    for name in ("crypto_scalarmult_curve25519_ref10", "crypto_scalarmult_curve25519_sandy2x"):
+        fn = prog.fn(name)
+        if fn is None:
+            continue
+        bf = bf_of(fn.unit)
+        if fn.name not in bf.unit.fns:
+            raise AnalysisBroken("R5.4: %s vanished from the -O2 IR" % name)
+        for pidx, what, ignored in ((1, "scalar", CLAMPED), (2, "point", {(31, 7)})):
+            leak, blind = [], []
+            for byte in range(32):
+                for bit in range(8):
+                    r = bf.analyse(fn.name, pidx, byte, bit)
+                    seen = bool(r["ret"] or r["branches"] or r["calls"] or r["stores"])
+                    n += 1
+                    if (byte, bit) in ignored and seen:
+                        leak.append((byte, bit))
+                    elif (byte, bit) not in ignored and not seen:
+                        blind.append((byte, bit))
+            chk.ob("R5.4", fn, "%s bits %s cannot influence the computation" % (what, sorted(8 * b + k for b, k in ignored)), not leak,
+                   detail="(byte, bit) %s reach a use" % leak if leak else "", key="R5.4 %s %s ignored-bits" % (name, what))
+            chk.ob("R5.4", fn, "every other %s bit can influence the computation" % what, not blind,
+                   detail="(byte, bit) %s never reach a use" % blind[:12] if blind else "", key="R5.4 %s %s used-bits" % (name, what))
+    chk.floor("R5.4", "(ladder entry, operand, byte, bit) flows analysed", n, 512)
